@@ -875,6 +875,11 @@ func (a *analyzer) funcSites(p *packages.Package, rel, fname string, root ast.No
 						}
 					}
 				}
+				// collected into a local that is sorted before anything else sees it:
+				//   x := slices.Collect(maps.Keys(m)) / slices.AppendSeq(base, maps.Keys(m)); slices.Sort(x)
+				if k := a.collectedThenSorted(info, stack); k != "" {
+					eff = "EOrderCall " + k
+				}
 				s.Effects = []string{eff}
 				res = append(res, s)
 			}
@@ -882,6 +887,75 @@ func (a *analyzer) funcSites(p *packages.Package, rel, fname string, root ast.No
 		return true
 	})
 	return res
+}
+
+// collectedThenSorted: stack ends with [.. BlockStmt, AssignStmt `x := / = collect(.., <order call>)`, CallExpr collect, CallExpr order call]
+// where collect is slices.Collect or slices.AppendSeq with the order call as its LAST argument, x is a plain local, and the
+// first later statement of the block that mentions x is a sort of x (library sort, or an unexported helper whose first
+// statement sorts its parameter).  Returns that sort's kind, "" when the shape is anything else.
+func (a *analyzer) collectedThenSorted(info *types.Info, stack []ast.Node) string {
+	if len(stack) < 4 {
+		return ""
+	}
+	oc := stack[len(stack)-1]
+	coll, ok := stack[len(stack)-2].(*ast.CallExpr)
+	if !ok || len(coll.Args) == 0 || ast.Unparen(coll.Args[len(coll.Args)-1]) != oc {
+		return ""
+	}
+	fn := calleeFunc(info, coll)
+	if fn == nil || fn.Pkg() == nil || fn.Pkg().Path() != "slices" || (fn.Name() != "Collect" && fn.Name() != "AppendSeq") {
+		return ""
+	}
+	as, ok := stack[len(stack)-3].(*ast.AssignStmt)
+	if !ok || len(as.Lhs) != 1 || len(as.Rhs) != 1 || ast.Unparen(as.Rhs[0]) != ast.Expr(coll) {
+		return ""
+	}
+	id, ok := as.Lhs[0].(*ast.Ident)
+	if !ok {
+		return ""
+	}
+	xo := info.Defs[id]
+	if xo == nil {
+		xo = info.Uses[id]
+	}
+	if v, isVar := xo.(*types.Var); !isVar || v.IsField() || v.Parent() == v.Pkg().Scope() {
+		return ""
+	}
+	blk, ok := stack[len(stack)-4].(*ast.BlockStmt)
+	if !ok {
+		return ""
+	}
+	after := false
+	for _, st := range blk.List {
+		if st == ast.Stmt(as) {
+			after = true
+			continue
+		}
+		if !after {
+			continue
+		}
+		mentions := false
+		ast.Inspect(st, func(n ast.Node) bool {
+			if i2, ok := n.(*ast.Ident); ok && (info.Uses[i2] == xo || info.Defs[i2] == xo) {
+				mentions = true
+			}
+			return true
+		})
+		if !mentions {
+			continue
+		}
+		es, ok := st.(*ast.ExprStmt)
+		if !ok {
+			return ""
+		}
+		sc, ok := es.X.(*ast.CallExpr)
+		if !ok {
+			return ""
+		}
+		c := &loopCtx{a: a, info: info}
+		return c.sortCallKind(sc, id.Name)
+	}
+	return ""
 }
 
 func relQualifier(p *types.Package) string {
